@@ -25,12 +25,12 @@ run, op `BD`/`BS`), and `crc` is the executable CRC-32 (`Driver/Crc32.lean`, com
   pre-allocation at 1 MiB);
 * `wal_entry_roundtrip_concrete`, `segment_roundtrip_concrete`, `checkpoint_roundtrip_concrete` — the
   round trips of C14 without the `ser/de` law and without the `… < 2^32` hypotheses on checksums;
-* `crc32_linear`, `crc32_detects_window4`, `crc32_detects_single_byte` — restated from
+* `crc32_linear`, `crc32_detects_window4`, `crc32_detects_burst32`, `crc32_detects_single_byte` — restated from
   `Lemmas/Crc32.lean`; `segment_record_byte_corruption_detected`, `wal_payload_byte_corruption_detected`,
   `wal_stamp_byte_corruption_detected` — a changed byte (any single-bit flip included) of a segment's
   record region / a WAL entry's payload / stamp is an error, for every image, with NO hypothesis
-  on the checksum.  Still assumed where used: damage wider than 4 consecutive bytes, and damage to
-  a LENGTH field (the checksum then covers a string of another length).
+  on the checksum.  Still assumed where used: damage wider than a 32-bit burst / 4 consecutive
+  bytes, and damage to a LENGTH field (the checksum then covers a string of another length).
 * `checkpoint_load_unvalidated_crashes_counterexample` — `CheckpointReader::load` called without
   `validate` PANICS on a checkpoint cut inside its data section (known finding
   `C14:checkpoint:load-without-validate:panics-on-short-image`; prepared fix: model variant
@@ -104,6 +104,20 @@ theorem crc32_detects_window4 (pre w w' post : Bytes) (hlen : w.length = w'.leng
     (hw : ∀ x ∈ w, x < 256) (hw' : ∀ x ∈ w', x < 256) (hne : w ≠ w') :
     crc32 (pre ++ w ++ post) ≠ crc32 (pre ++ w' ++ post) :=
   Crc.crc32_detects_window pre w w' post hlen h4 hw hw' hne
+
+/-- … and every burst of at most 32 bits of the bit stream that straddles five bytes (CRC-32 consumes
+    each byte LSB first: the first difference byte is a non-zero multiple of 2^q, the fifth is below
+    2^q).  With `crc32_detects_window4`: EVERY burst of ≤ 32 bits, wherever it starts -/
+theorem crc32_detects_burst32 (pre w w' post : Bytes) (q t m1 m2 m3 b4 : Nat) (hlen : w.length = w'.length)
+    (hx : Crc.xorB w w' = [2 ^ q * t, m1, m2, m3, b4]) (hq : q ≤ 8) (ht : 0 < t) (hb0 : 2 ^ q * t < 256)
+    (h1 : m1 < 256) (h2 : m2 < 256) (h3 : m3 < 256) (h4 : b4 < 2 ^ q) :
+    crc32 (pre ++ w ++ post) ≠ crc32 (pre ++ w' ++ post) :=
+  Crc.crc32_detects_burst32 pre w w' post q t m1 m2 m3 b4 hlen hx hq ht hb0 h1 h2 h3 h4
+
+-- non-vacuity: bits 4..7 of the first byte through bits 0..3 of the fifth (a 32-bit burst, q = 4)
+example : crc32 ([9] ++ [0x10, 0, 0, 0, 0x0F] ++ [1, 2]) ≠ crc32 ([9] ++ [0, 0, 0, 0, 0] ++ [1, 2]) :=
+  crc32_detects_burst32 [9] [0x10, 0, 0, 0, 0x0F] [0, 0, 0, 0, 0] [1, 2] 4 1 0 0 0 0x0F rfl (by decide)
+    (by decide) (by decide) (by decide) (by decide) (by decide) (by decide) (by decide)
 
 theorem crc32_detects_single_byte (m : Bytes) (i v : Nat) (hi : i < m.length) (hm : ∀ x ∈ m, x < 256) (hv : v < 256)
     (hne : m[i]'hi ≠ v) : crc32 (m.set i v) ≠ crc32 m := Crc.crc32_detects_set m i v hi hm hv hne
